@@ -543,9 +543,16 @@ def _fields(repo, rep):
               construct="attr-scan", where=L.where(mt))
     if len(loops) == 1:
         lv = src(loops[0].target)
-        uses_start = any(isinstance(n, ast.Call) and
-                         src(n.func) == lv + ".start"
-                         for n in ast.walk(mt.node))
+        # the skipped text is cut out (token[<end of previous>:<start of
+        # this match>]) and stored into a field of the attribute
+        uses_start = any(
+            isinstance(n, ast.Assign) and isinstance(
+                n.targets[0], ast.Subscript) and any(
+                    isinstance(x, ast.Subscript) and isinstance(
+                        x.slice, ast.Slice) and x.slice.upper is not None
+                    and src(x.slice.upper) == lv + ".start()"
+                    for x in ast.walk(n.value))
+            for n in ast.walk(loops[0]))
         agrees, adetail = unquoted_class_agrees(repo)
         rep.check(uses_start or agrees, "R03.3", mt.qualname,
                   "no text of a tag is skipped by the finditer scan: either "
@@ -631,6 +638,12 @@ def unquoted_class_agrees(repo):
             tset = rx.all_chars(alt[0][1][2])
     if tset is None:
         return False, "no unquoted alternative in AttValSE %r" % att
+    # ... and the 'Simple' alternative of ElemTagCE (a value that starts
+    # with a character AttValSE does not admit; it may even contain blanks)
+    etag = res.get("ElemTagCE", "")
+    simple = res.get("Simple")
+    if simple is not None and simple in etag:
+        tset = tset | rx.all_chars(rx.parse(simple))
     rc = repo.const("chameleon.parser", "match_single_attribute")
     pat = rc.pattern if isinstance(rc.pattern, str) else \
         rc.pattern.decode("latin-1")
